@@ -509,3 +509,22 @@ func (e *Engine) FID(owner types.Type, idx int) int {
 	}
 	return id
 }
+
+// LemmaState is an empty state (fresh heap, no variables) for obligations that
+// are lemmas over specification functions rather than facts about code.
+func (e *Engine) LemmaState(hint string) *State {
+	st := &State{vars: map[types.Object]smt.T{}, named: map[string]Val{}}
+	st.heap = e.Decls.Const("heap0!lemma!"+smt.Ident(hint), smt.Heap)
+	return st
+}
+
+// ObligeLemma records a lemma obligation under the given function key.
+func (e *Engine) ObligeLemma(st *State, fn, detail string, goal smt.T) {
+	if goal.S == "true" {
+		return
+	}
+	e.pathN++
+	name := fn + "/lemma:" + detail
+	e.Obls = append(e.Obls, &Obligation{Name: name, ID: fmt.Sprintf("%s#%d", name, e.pathN), Kind: "lemma", Func: fn,
+		Assumes: append([]smt.T(nil), st.pc...), Goal: goal})
+}
